@@ -1,0 +1,18 @@
+//! Verification hooks for the gossip network (compiled only with `--cfg era_consensus_verif`).
+#![allow(missing_docs, unreachable_pub, clippy::missing_docs_in_private_items)]
+use rand::Rng;
+use zksync_consensus_roles::node;
+
+use super::handshake;
+use crate::verif::{wire_type, WireType};
+
+pub(crate) fn wire_types(rng: &mut impl Rng) -> Vec<WireType> {
+    let node_key: node::SecretKey = rng.gen();
+    let mut hs = |v: Option<&str>| handshake::Handshake {
+        session_id: node_key.sign_msg(node::SessionId(rng.gen::<[u8; 32]>().to_vec())),
+        genesis: rng.gen(),
+        is_static: rng.gen(),
+        build_version: v.map(|v| v.parse().unwrap()),
+    };
+    vec![wire_type("gossip::Handshake", vec![hs(None), hs(Some("0.13.0")), hs(Some("1.2.3-alpha+build5"))])]
+}
